@@ -11,7 +11,7 @@ def checks():
 def extras():
     """checks beyond the listed properties (not in MANIFEST.json)"""
     from .checks import extras as ex
-    return {c.pid: c for c in [ex.X01()]}
+    return {c.pid: c for c in [ex.X01(), ex.X02()]}
 
 
 def not_applicable():
